@@ -68,7 +68,7 @@ func (c *Converter) ExpandUpdate(ctx context.Context, upd *sdcpb.Update, include
 		var v interface{}
 		var err error
 		var jsonDecoder *json.Decoder
-		switch upd.GetValue().Value.(type) {
+		switch upd.GetValue().GetValue().(type) {
 		case *sdcpb.TypedValue_JsonIetfVal:
 			jsonDecoder = json.NewDecoder(bytes.NewReader(upd.GetValue().GetJsonIetfVal()))
 		case *sdcpb.TypedValue_JsonVal:
@@ -95,7 +95,7 @@ func (c *Converter) ExpandUpdate(ctx context.Context, upd *sdcpb.Update, include
 		var err error
 
 		var jsonValue []byte
-		switch upd.GetValue().Value.(type) {
+		switch upd.GetValue().GetValue().(type) {
 		case *sdcpb.TypedValue_JsonVal:
 			jsonValue = upd.GetValue().GetJsonVal()
 		case *sdcpb.TypedValue_JsonIetfVal:
@@ -164,6 +164,10 @@ func (c *Converter) ExpandUpdateKeysAsLeaf(ctx context.Context, upd *sdcpb.Updat
 }
 
 func (c *Converter) ExpandContainerValue(ctx context.Context, p *sdcpb.Path, jv any, cs *sdcpb.SchemaElem_Container, includeKeysAsLeaf bool) ([]*sdcpb.Update, error) {
+	// an update without a path refers to the root
+	if p == nil {
+		p = &sdcpb.Path{}
+	}
 	log.Debugf("expanding jsonVal %T | %v | %v", jv, jv, p)
 	switch jv := jv.(type) {
 	case string:
@@ -374,7 +378,7 @@ func isKey(s string, cs *sdcpb.SchemaElem_Container) bool {
 }
 
 func TypedValueToYANGType(tv *sdcpb.TypedValue, schemaObject *sdcpb.SchemaElem) (*sdcpb.TypedValue, error) {
-	switch tv.Value.(type) {
+	switch tv.GetValue().(type) {
 	case *sdcpb.TypedValue_AsciiVal:
 		return ConvertToTypedValue(schemaObject, tv.GetAsciiVal(), tv.GetTimestamp())
 	case *sdcpb.TypedValue_BoolVal:
@@ -614,7 +618,7 @@ func ConvertTypedValueToYANGType(schemaElem *sdcpb.SchemaElem, tv *sdcpb.TypedVa
 			}, nil
 		}
 	case schemaElem.GetLeaflist() != nil:
-		switch tv.Value.(type) {
+		switch tv.GetValue().(type) {
 		case *sdcpb.TypedValue_LeaflistVal:
 			return tv, nil
 		}
@@ -728,7 +732,7 @@ func convertUpdateTypedValue(_ context.Context, upd *sdcpb.Update, scRsp *sdcpb.
 			return nil, nil
 		}
 		// regular leaf list
-		switch upd.GetValue().Value.(type) {
+		switch upd.GetValue().GetValue().(type) {
 		case *sdcpb.TypedValue_LeaflistVal:
 			return upd, nil
 		default:
